@@ -53,6 +53,10 @@ def cases(tier, seed):
         sp = gen.config(rng, **kw)
         if cls == 5 and sp["crop"]["name"] in ("Wheat", "Maize", "Tomato"):
             sp["crop"]["kw"]["Zmin"] = float(gen.pick(rng, [0.2, 0.4]))
+        if sp["irr"]["method"] == 1 and i % 2 == 0:
+            sp["irr"]["kw"]["SMT_as_array"] = True
+        if not sp.get("co2") and i % 3 == 0:
+            sp["co2"] = {"default": True}           # an explicit CO2() object shared by all generations
         sp["pad_before"] = int(gen.pick(rng, [0, 0, 3, 200]))
         sp["pad_after"] = int(gen.pick(rng, [0, 0, 3, 200]))
         if sp["weather"]["kind"] == "file":
